@@ -18,10 +18,13 @@ func TestC08(t *testing.T) {
 	defer model.Close()
 	run.HasModel = model != nil
 	run.SetRule("random histories of put/touch/finalize/corrupt(read with a flipped byte) on the real OldCurrentNewLocationBlobMap over the real " +
-		"volatile block list and the block-device allocator with the CAS read buffer factory; non-trivial = at least one block released; distinct by script hash")
+		"volatile block list and the block-device allocator with the CAS read buffer factory; non-trivial = at least one block released; distinct by script hash. " +
+		"Store level: the same corruption injected under real flat / hierarchical CAS stores (with and without a data integrity validation cache; the corrupting read " +
+		"consumed in every way a client can, incl. ReadAt of a range) and under AC stores (an entry that no longer parses: the read returns 0xff bytes), " +
+		"followed by a full turn-over of uploads that must all be accepted")
 	bmx.Main(run, model, "C08", 12, run.Report)
 	// the same property at the level of the blob access: a flipped byte on the medium is read through the real
-	// flat CAS store; objects at or below the quarantined block must no longer be served or reported present
+	// stores; objects at or below the quarantined block must no longer be served or reported present
 	stx.Corruption = 8
-	stx.Main(run, model, "C08store", []string{"C08"}, []string{"flat", "flati", "hier"}, 2500, 24000)
+	stx.Main(run, model, "C08store", []string{"C08"}, []string{"flat", "flati", "hier", "ac"}, 3000, 28000)
 }
